@@ -396,10 +396,19 @@ def bind_enclosing_lazily(ex, st, name):
     return None
 
 
+KNOWN_DECORATORS = {'staticmethod', 'classmethod', 'property', 'abstractmethod', 'contextmanager'}
+
+
 def call_function(ex, st, node, mod, cls, parent_fid, args, kwargs, name=None, star=None, dstar=None, defaults=None):
     """inline a repository function / lambda in a new frame (no contract: the body is the specification)"""
     if len(st.stack) > MAXDEPTH:
         raise Unsupported('inlining depth exceeded at ' + str(name))
+    if isinstance(node, ast.FunctionDef):
+        # a decorator replaces the function by whatever it returns: only the ones the engine gives a meaning to may be looked through
+        odd = [ast.unparse(d) for d in node.decorator_list
+               if not (ast.unparse(d).split('.')[-1] in KNOWN_DECORATORS or ast.unparse(d).endswith('.setter') or ast.unparse(d).endswith('.getter'))]
+        if odd:
+            raise Unsupported('function %s is wrapped by a decorator without a model: %s' % (name or node.name, ', '.join(odd)))
     a = node.args
     if a.posonlyargs or a.kwonlyargs:
         raise Unsupported('positional-only / keyword-only parameters')
